@@ -12,6 +12,8 @@ DEFAULT_NOTE = ("Trusted: Lean 4.33 kernel; axioms propext, Classical.choice, Qu
                 "standard, not present in the sandbox; C++ object lifetime and aliasing are modelled by immutable values.")
 LEVEL_NOTE = {}
 LEVEL_TEXT = {
+    "C07": "Theorems C07_frames_wf / C07_C08_bytes / tile_bytes / frame_length / C07_empty: for every encoder state, every batch (payloads 0..65535 bytes) and every configuration with 25 <= max, min <= max, an independent byte-level tiler succeeds on every serialised frame and the decidable predicate P_C07 holds (min <= len <= max, >= 1 message, declared lengths tile the frame, zero padding only up to min, every payload byte exactly once and in order, no frames for an empty batch). Fold invariant over the batch, no bound on sizes. The same P_C07 is evaluated by the Lean driver on the frames the real encoder produced for every generated case.",
+    "C08": "Theorem C08_seg_rules (+ C07_C08_bytes on bytes): P_C08 holds for every batch of payloads of 1..65535 bytes and every valid configuration: split iff 16+len exceeds an empty frame, flags first/intermediary*/last, every non-last segment full, a segment alone in its frame, message type of every message = frame header's, batch order, and greedy fill (an unsegmented message starts a new frame of the same type only if it did not fit). P_C08 is also evaluated on the real encoder's frames.",
     "C05": "Theorems reassemble_single / reassemble_many / C05_interleaved on the decoder's reassembly automaton: for any prior state, any number of segments of any sizes (0 allowed), counters mod 65536 incl. the wrap, the message is delivered exactly once at its last frame with the first segment's header, version and type and the concatenated declared bytes (total <= 65535); lifted to any interleaving with arbitrary traffic of other endpoints by the non-interference theorem run_filter. Trailing bytes never enter because the parsed segment is the declared 16+len bytes (walk). Tied to the code by feeding table-built interleavings to the real decoder and comparing every call's output; the predicate (expected packet per last segment, nothing before) is evaluated on the implementation's output.",
     "C06": "Theorems fault_safe / C06_no_corruption(_interleaved): whatever sub-multiset and order of the sent frames arrives (drop, duplicate, reorder are one quantifier) and whichever segment copies carry a wrong version/type (side condition: different segments of one message are not corrupted to the same wrong pair - without it the statement is false of any decoder), every delivered packet is one that was sent; fault_recovery / fault_recovery_unseg: from ANY state, a message arriving complete, in order, uninterrupted is delivered. Invariant proof over the arrived list, stream length < 65536. Tied to the code by fault scripts over real encoder output fed to the real decoder.",
     "C17": "Theorems localStep_refines / C17_pending_iff_open / C17_pending_bytes / C17_idle_empty / C17_support / C17_release / C17_last_releases: the pending table refines a buffer-free specification automaton (a message is in progress after a first segment and while matching intermediary segments arrive alone in their frame); pending bytes <= 16 + segment bytes of the open message; no open message => empty table; TECMP/short/null buffers leave it untouched. All histories, by induction. Tied to the code by reading the real decoder's private table (-fno-access-control, no source hook) after every frame of exhaustive and random histories.",
@@ -29,13 +31,16 @@ def last_lines(n):
     return lambda case, lines: lines[-n:]
 
 
-reg(Spec("C01", "Encode then decode returns the original packets", [], [], [], gen_enc.gen_c01,
+reg(Spec("C01", "Encode then decode returns the original packets", [], [], [], gen_enc.gen_c01, batch_predicate=gen_enc.make_batch_pred("C01"),
          view=lambda c, l: l[-3:-1],
          rule="one- and two-packet batches exhaustively over small frame sizes, random batches of 1..12 packets of all payload kinds with lengths at every fit/no-fit boundary; non-trivial = batch contains a segmented packet, a message-type change or a fill-caused frame boundary; distinct by script text"))
-reg(Spec("C07", "Every encoded frame is well-formed and within the size bounds", [], [], [], gen_enc.gen_c07,
+C07_THMS = ["AsamCmp.frame_length", "AsamCmp.C07_empty", "AsamCmp.C07_frames_wf", "AsamCmp.tile_bytes", "AsamCmp.C08_seg_rules", "AsamCmp.C07_C08_bytes"]
+reg(Spec("C07", "Every encoded frame is well-formed and within the size bounds", ["AsamCmp.Props.C07"], C07_THMS, ["AsamCmp.Props.C07"], gen_enc.gen_c07,
+         batch_predicate=gen_enc.make_batch_pred("C07"),
          view=lambda c, l: [x for x in l if x.startswith("frames") or x.startswith("CRASH")],
          rule="as C01 plus mixed versions, empty batches and zero-length payloads; view = frame bytes"))
-reg(Spec("C08", "Segmentation and aggregation follow the protocol rules", [], [], [], gen_enc.gen_c07,
+reg(Spec("C08", "Segmentation and aggregation follow the protocol rules", ["AsamCmp.Props.C07"], C07_THMS, ["AsamCmp.Props.C07"], gen_enc.gen_c07,
+         batch_predicate=gen_enc.make_batch_pred("C08"),
          view=lambda c, l: [x for x in l if x.startswith("frames") or x.startswith("CRASH")],
          rule="as C07"))
 
